@@ -1082,7 +1082,7 @@ class TensorSample(Contract):
         flat == sum_j p_j * prod_{l>j} n_l -- i.e. they are the row-major coordinates of the drawn cell, so each Delta points
         at the cell whose probability was used;
       one Delta per sampled variable plus the log-normaliser Tensor over the batch inputs, summed.
-    structure bound: <= 3 inputs, <= 2 sampled (3 thorough), <= 1 extra sample input."""
+    structure bound: <= 3 inputs, <= 3 sampled, <= 1 extra sample input."""
 
     props = ("C14",)
     file = "funsor/tensor.py"
@@ -1096,7 +1096,7 @@ class TensorSample(Contract):
     )
 
     def structures(self, tier):
-        ms = 2 if tier == "quick" else 3
+        ms = 3
         for n in (1, 2, 3):
             names = NAMES[:n]
             for r in range(1, min(n, ms) + 1):
@@ -1208,9 +1208,18 @@ class TensorSample(Contract):
             def __sym_compare__(self, opname, o):
                 return self.__lt__(o)
 
+            def __add__(self, o):
+                return Opq(("add",))
+
+            __radd__ = __add__
+
+            def __sym_getitem__(self, idx):
+                return Opq(("getitem",))
+
         NP.amax = staticmethod(lambda a, axis, keepdims=False: Opq(("amax",)))
         NP.exp = staticmethod(lambda a: Opq(("exp",)))
         NP.cumsum = staticmethod(lambda a, axis: Opq(("cumsum",)))
+        NP.log = staticmethod(lambda a: Opq(("log",)))
         _sum = NP.sum
 
         def np_sum(a, axis=None, keepdims=False):
